@@ -469,6 +469,41 @@ pub fn gen_session(rng: &mut Rng, class: SizeClass) -> Vec<AbsResp> {
     (0..n).map(|_| gen_resp(rng, class)).collect()
 }
 
+/// Make the encoded body (everything after the greeting) end exactly at, one short of, or one
+/// past a receive-buffer capacity 4096·2^k — counted from the start of the body or from the
+/// start of the stream — by appending one padded single-frame response. Returns false if the
+/// session is already too long for the largest target.
+pub fn fit_to_capacity(rng: &mut Rng, session: &mut Vec<AbsResp>, greeting_len: usize) -> bool {
+    let body_len: usize = {
+        let mut out = Vec::new();
+        for r in session.iter() {
+            r.encode(&mut out);
+        }
+        out.len()
+    };
+    let base = *rng.pick(&[4096usize, 4096, 8192, 16384]);
+    let from_stream_start = rng.chance(1, 3);
+    let delta = *rng.pick(&[0isize, 0, 0, -1, 1]);
+    let mut target = (base as isize + delta) as usize;
+    if from_stream_start {
+        target = target.saturating_sub(greeting_len);
+    }
+    // "pad: " + value + LF + "OK" + LF
+    const OVERHEAD: usize = 5 + 1 + 3;
+    let mut t = target;
+    while t < body_len + OVERHEAD {
+        t += base;
+        if t > 70_000 {
+            return false;
+        }
+    }
+    let v = "p".repeat(t - body_len - OVERHEAD);
+    session.push(AbsResp::Single(AbsFrame {
+        items: vec![AbsItem::Field("pad".into(), v)],
+    }));
+    true
+}
+
 pub fn gen_version(rng: &mut Rng) -> Vec<u8> {
     match rng.below(12) {
         0..=5 => (*rng.pick(&["0.23.5", "0.21.11", "0.24.0", "1", "0.19.0~git"]))
